@@ -150,7 +150,14 @@ class FindIdentifiers(_ast_util.NodeVisitor):
 
         local_ident_stack = self.local_ident_stack
         self.local_ident_stack = local_ident_stack.union(
-            [arg_id(arg) for arg in self._expand_tuples(node.args.args)]
+            [arg_id(arg) for arg in self._expand_tuples(node.args.args)],
+            [arg_id(arg) for arg in node.args.posonlyargs],
+            [arg_id(arg) for arg in node.args.kwonlyargs],
+            [
+                arg_id(arg)
+                for arg in (node.args.vararg, node.args.kwarg)
+                if arg is not None
+            ],
         )
         if islambda:
             self.visit(node.body)
